@@ -70,6 +70,9 @@ func (e *Eval) eval(n *Node) Val {
 		return Val{T: x.strConst(n.Name), Typ: types.Typ[types.String]}
 	case "hash":
 		if v, ok := e.hash[n.Name]; ok {
+			if strings.HasPrefix(v.T, "$iter:") {
+				v.T = x.get(e.st, strings.TrimPrefix(v.T, "$iter:"))
+			}
 			return v
 		}
 		e.fail("#%s is not defined here", n.Name)
@@ -652,6 +655,24 @@ func (e *Eval) call(n *Node) Val {
 		if key == "" {
 			e.fail("no method %s on %s", callee.Name, typeName(recv.Typ))
 		}
+		// a method promoted from an embedded struct is applied to the embedded object
+		if _, isI := recv.Typ.Underlying().(*types.Interface); !isI {
+			base, _ := deref(recv.Typ)
+			var pk *types.Package
+			if n, ok := base.(*types.Named); ok {
+				pk = n.Obj().Pkg()
+			}
+			if _, index, _ := types.LookupFieldOrMethod(recv.Typ, true, pk, callee.Name); len(index) > 1 {
+				cur, curT := recv, base
+				for _, i := range index[:len(index)-1] {
+					stt, _ := structOf(curT)
+					f := stt.Field(i)
+					cur = x.selField(e.st, cur, f.Name(), e.fail)
+					curT, _ = deref(f.Type())
+				}
+				recv = cur
+			}
+		}
 		fs := x.db.Funcs[key]
 		if fs == nil || !fs.Pure {
 			e.fail("method %s has no pure contract (key %s)", callee.Name, key)
@@ -774,7 +795,7 @@ func (x *Engine) frameTerm(st, old *State) string {
 	a0 := x.get(old, "$alloc")
 	var cs []string
 	for _, k := range keys {
-		if strings.HasPrefix(k, "$") || strings.HasPrefix(k, "ghost:clock") || strings.HasPrefix(k, "Once:") {
+		if strings.HasPrefix(k, "$") || strings.HasPrefix(k, "ghost:clock") || strings.HasPrefix(k, "Once:") || strings.HasPrefix(k, "Iter:") {
 			continue
 		}
 		fin, ini := x.get(st, k), x.get(old, k)
